@@ -3,6 +3,7 @@ import json
 import os
 import re
 import subprocess
+import threading
 import time
 
 KANI_ENV = dict(os.environ, CARGO_NET_OFFLINE="true", CARGO_TERM_COLOR="never")
@@ -57,6 +58,30 @@ def run_kani(ws, crate, harnesses, jobs=16, timeout_s=900, extra_flags=(), featu
     for h in harnesses:
         cmd += ["--harness", h]
     t0 = time.time()
+    killed = []
+    stop = threading.Event()
+
+    def watchdog():
+        # memory cap per CBMC process (DESIGN.md 2.4): a solver above the cap is killed -> that harness is undecided
+        cap_kb = int(os.environ.get("VERIF_RSS_CAP_GB", "24")) * 1024 * 1024
+        while not stop.wait(5):
+            try:
+                out = subprocess.run(["ps", "-eo", "pid,rss,args"], stdout=subprocess.PIPE, text=True).stdout
+            except Exception:
+                continue
+            for line in out.splitlines()[1:]:
+                parts = line.split(None, 2)
+                if len(parts) < 3:
+                    continue
+                pid, rss, args = parts
+                if args.startswith("cbmc ") and ws in args and int(rss) > cap_kb:
+                    try:
+                        os.kill(int(pid), 9)
+                        killed.append("%s (%d GB)" % (pid, int(rss) // (1024 * 1024)))
+                    except Exception:
+                        pass
+    th = threading.Thread(target=watchdog, daemon=True)
+    th.start()
     try:
         p = subprocess.run(cmd, cwd=crate_dir, env=KANI_ENV, stdout=subprocess.PIPE, stderr=subprocess.STDOUT,
                            text=True, timeout=wall_timeout)
@@ -67,6 +92,10 @@ def run_kani(ws, crate, harnesses, jobs=16, timeout_s=900, extra_flags=(), featu
         log += "\n[driver] wall timeout\n"
         rc = -9
         subprocess.run(["pkill", "-x", "cbmc"])
+    finally:
+        stop.set()
+    if killed:
+        log += "\n[driver] memory cap: killed cbmc %s\n" % ", ".join(killed)
     wall = time.time() - t0
     if logdir:
         os.makedirs(logdir, exist_ok=True)
@@ -111,6 +140,8 @@ def run_kani(ws, crate, harnesses, jobs=16, timeout_s=900, extra_flags=(), featu
                 why = "compile error in overlay"
             elif re.search(r"no harnesses matched|No proof harnesses", log):
                 why = "harness not found"
+            elif "memory cap: killed" in log:
+                why = "memory cap exceeded (solver killed)"
             elif "timed out" in log or rc == -9:
                 why = "timeout"
             results[h] = {"status": "NoResult", "reason": why, "failed": [], "n_checks": 0,
